@@ -42,7 +42,7 @@ ASSUMPTIONS = [
     "a generate that raises is an outcome too: it must raise in the baseline as well",
 ]
 TIERS = {
-    "quick": {"runs": 800, "chunk": 10, "wall": 100, "chunk_timeout": 400, "selftest": 4, "pool": 10},
+    "quick": {"runs": 800, "chunk": 10, "wall": 100, "chunk_timeout": 400, "selftest": 4, "pool": 14},
     "thorough": {"runs": 8000, "chunk": 20, "wall": 800, "chunk_timeout": 900, "selftest": 8, "pool": 36},
 }
 EXPECTED_PROBES = {t: ["nonzero_hashseed", "generate_on_reused_tree", "generate_after_generate_same_tree", "cpp_with_services",
@@ -82,11 +82,61 @@ def gen_pool_schema(rng, i):
     return gensim.shape_for(rng, kind)
 
 
+def can_c_enum_schema(rng):
+    """fcp_can_c shape with enum fields (Generator.generate handles them; only its verifier check does not)."""
+    names = K.Names(rng)
+    decls = []
+    enames = []
+    for _ in range(rng.randint(1, 2)):
+        d = K.gen_decls(rng, names, K.new_vis(), 1, allow=("enum",))
+        d = [x for x in d if x["kind"] == "enum"]
+        if not d:
+            d = [{"kind": "enum", "name": names.enum(), "values": [["Off", 0], ["On", rng.randint(1, 30)]]}]
+        decls += d
+        enames.append(d[0]["name"])
+    ids = rng.sample(range(1, 2000), 4)
+    for si in range(rng.randint(1, 3)):
+        fields = [{"name": w, "id": fi, "type": (["enum", rng.choice(enames)] if rng.random() < 0.5 else [rng.choice("ui"), rng.choice([8, 16])])}
+                  for fi, w in enumerate(rng.sample(S.WORDS, rng.randint(1, 3)))]
+        sname = names.struct()
+        decls.append({"kind": "struct", "name": sname, "fields": fields})
+        decls.append({"kind": "impl", "protocol": "can", "type": sname, "name": sname,
+                      "fields": [["id", ids[si]], ["device", rng.choice(["ecu", "bms"])]], "signals": []})
+    return decls
+
+
+def edited_version(rng, decls):
+    """The same schema after an edit: every name kept, definitions changed (enum ranges, integer widths, ids).
+    What a long-lived process sees when the user changes the schema and generates again."""
+    import copy
+    d = copy.deepcopy(decls)
+    for x in d:
+        if x["kind"] == "enum":
+            scale = rng.choice([3, 9, 40])
+            x["values"] = [[n, v * scale + 1] for n, v in x["values"]]
+        elif x["kind"] == "struct":
+            for f in x["fields"]:
+                if f["type"][0] in ("u", "i") and f["type"][1] in (8, 16):
+                    f["type"] = [f["type"][0], 24 - f["type"][1]]
+        elif x["kind"] == "impl":
+            x["fields"] = [[k, (v + 1 if k == "id" else v)] for k, v in x["fields"]]
+    return d
+
+
 def make_pool(seed, n):
     pool = {}
-    for i in range(n):
+    i = 0
+    while len(pool) < n:
         rng = stream(H(seed, "C17", "pool", i), "schema")
-        pool[f"s{i}"] = S.render(gen_pool_schema(rng, i))
+        if i % 5 == 4:
+            decls = can_c_enum_schema(rng)
+        else:
+            decls = gen_pool_schema(rng, i)
+        pool[f"s{len(pool)}"] = S.render(decls)
+        if i % 2 == 0 and len(pool) < n:
+            # followed by its edited version (same names, other definitions)
+            pool[f"s{len(pool)}"] = S.render(edited_version(rng, decls))
+        i += 1
     return pool
 
 
@@ -143,11 +193,17 @@ def prepare(seed, tier):
 
 def gen_run(rng, pool):
     sids = rng.sample(sorted(pool), min(len(pool), weighted(rng, [(1, 4), (2, 4), (3, 2)])))
+    if rng.random() < 0.35:
+        # a schema together with its edited version (same type names, other definitions), when the pool has the pair
+        k = rng.randrange(len(pool) - 1)
+        sids = [f"s{k}", f"s{k + 1}"]
     hashseed = weighted(rng, [(0, 2), (rng.randint(1, 4294967295), 8)])
     clock0 = weighted(rng, [(1_700_000_000, 2), (rng.randint(0, 2_000_000_000), 5),
                             (1_700_000_000 - (1_700_000_000 % 86400) + 86399, 2)])     # one second before midnight
     cfg = {"hashseed": hashseed, "clock0": clock0,
-           "user": rng.choice(["simuser", "root", "ci-runner", "j.doe"]), "host": rng.choice(["simhost", "build-17.example.org", "x"]),
+           "user": rng.choice(["simuser", "root", "ci-runner", "j.doe", "svc-build-pipeline-automation-account-0042"]),
+           "host": rng.choice(["simhost", "build-17.example.org", "x",
+                               "runner-7f9c4d5b6e-xk2lp.ci-namespace.svc.cluster.local.example-corporation.internal"]),
            "listperm": rng.choice([0, rng.randint(1, 1 << 30)]),
            "tz": rng.choice(["UTC", "UTC", "Asia/Tokyo", "America/Los_Angeles", "Pacific/Kiritimati"])}
     n = rng.randint(5, 15)
